@@ -1,59 +1,27 @@
 (* Props/C12.v — property C12: the output is a deterministic function of the inputs.
-   Statements only; proofs are in Out/ProjectProofs.v (model: Out/Project.v, Out/Names.v). *)
+   Statements only; proofs are in Out/ProjectProofs.v (model: Out/Project.v, Out/Names.v).
+   The model is the pipeline after the repairs 80d6c91 (source files parsed in sorted order) and
+   c3c7c8e (InheritedByGraph walks sorted(children)). *)
 From Coq Require Import Permutation.
 From Ford Require Import Base.Str Base.Order Out.Names Out.Project Out.ProjectProofs.
 
-(* Full statement: the identifiers (hence page names, anchors and URLs) do not depend on the order
-   in which the file system / the hash seed enumerates the source files (pi) nor on the iteration
-   order of the sets of objects walked while correlating (sigma).  It is FALSE of the code. *)
+(* Full statement: the identifiers (hence page names, anchors and URLs) depend neither on the
+   iteration order of the set of source files (pi) nor on the iteration order of the sets of
+   objects walked while correlating (sigma).  It is still FALSE of the code, because of sigma. *)
 Definition C12_statement : Prop :=
   forall P pi1 pi2 sigma1 sigma2,
     is_perm pi1 (length (p_files P)) -> is_perm pi2 (length (p_files P)) ->
     perms_ok (p_sets P) sigma1 -> perms_ok (p_sets P) sigma2 ->
     idents P pi1 sigma1 = idents P pi2 sigma2.
 
-(* Partial: projects in which no two entities compete for one NameSelector counter (same output
-   directory / anchor namespace and same normalised name).  Any number of files, any permutations. *)
-Theorem C12_perm_invariant_noclash : forall P pi1 pi2 sigma1 sigma2,
-  no_clashb P = true ->
-  is_perm pi1 (length (p_files P)) -> is_perm pi2 (length (p_files P)) ->
-  perms_ok (p_sets P) sigma1 -> perms_ok (p_sets P) sigma2 ->
-  idents P pi1 sigma1 = idents P pi2 sigma2.
-Proof. exact perm_invariant_noclash. Qed.
-Print Assumptions C12_perm_invariant_noclash.
-
-(* The reason, at the level of the NameSelector: in a clash-free run the identifier of every entity
-   depends only on the set of requests, not on their order or multiplicity. *)
-Theorem C12_noclash_order_irrelevant : forall rs1 rs2,
-  no_clash_list rs1 = true -> (forall r, In r rs1 <-> In r rs2) ->
-  forall id, ident_in (fst (run init rs1)) id = ident_in (fst (run init rs2)) id.
-Proof. exact noclash_order_irrelevant_b. Qed.
-Print Assumptions C12_noclash_order_irrelevant.
-
-(* Refutation: two files, each with a variable x.  Whichever file comes first owns "variable-x",
-   the other one gets "variable-x~2". *)
-Theorem C12_refuted_clash_witness :
-  idents clash_project [0; 1] [] =
-    [(1, Some (s "a.f90")); (2, Some (s "ma")); (3, Some (s "x"));
-     (4, Some (s "b.f90")); (5, Some (s "mb")); (6, Some (s "x~2"))] /\
-  idents clash_project [1; 0] [] =
-    [(1, Some (s "a.f90")); (2, Some (s "ma")); (3, Some (s "x~2"));
-     (4, Some (s "b.f90")); (5, Some (s "mb")); (6, Some (s "x"))].
-Proof. exact clash_project_idents. Qed.
-Print Assumptions C12_refuted_clash_witness.
-
-Theorem C12_refuted_clash : ~ C12_statement.
-Proof. exact statement_refuted. Qed.
-Print Assumptions C12_refuted_clash.
-
-(* The candidate repair "for filename in sorted(find_all_files(settings))": with the enumeration
-   sorted first the result no longer depends on pi — clashes or not. *)
-Theorem C12_sorted_is_canonical : forall P pi1 pi2 sigma,
+(* By-file phases, full: the order in which the set of source files is iterated never matters —
+   any number of files, competing names or not. *)
+Theorem C12_file_order_irrelevant : forall P pi1 pi2 sigma,
   NoDup (map f_path (p_files P)) ->
   is_perm pi1 (length (p_files P)) -> is_perm pi2 (length (p_files P)) ->
-  idents_sorted P pi1 sigma = idents_sorted P pi2 sigma.
-Proof. exact sorted_is_canonical. Qed.
-Print Assumptions C12_sorted_is_canonical.
+  idents P pi1 sigma = idents P pi2 sigma.
+Proof. exact file_order_irrelevant. Qed.
+Print Assumptions C12_file_order_irrelevant.
 
 Theorem C12_sorted_is_canonical_any_order : forall (leb : pfile -> pfile -> bool) P pi1 pi2 sets,
   total leb -> transitive leb -> antisym_on leb (p_files P) ->
@@ -63,14 +31,79 @@ Theorem C12_sorted_is_canonical_any_order : forall (leb : pfile -> pfile -> bool
 Proof. exact sorted_is_canonical_gen. Qed.
 Print Assumptions C12_sorted_is_canonical_any_order.
 
-(* ... but it does not remove the dependence on sets of objects hashed by id: two equally named
-   modules in one level of the toposort *)
-Theorem C12_sorted_not_enough :
+(* ... nor does the place where the project lives (all source files below one root) *)
+Theorem C12_location_irrelevant : forall root P pi sigma,
+  idents (relocate root P) pi sigma = idents P pi sigma.
+Proof. exact location_irrelevant. Qed.
+Print Assumptions C12_location_irrelevant.
+
+(* the former refutation witness (two files, a variable x in each): file order no longer matters;
+   a.f90 owns "variable-x", b.f90 gets "variable-x~2" *)
+Theorem C12_former_clash_witness_repaired :
+  idents clash_project [0; 1] [] = idents clash_project [1; 0] [] /\
+  idents clash_project [1; 0] [] =
+    [(1, Some (s "a.f90")); (2, Some (s "ma")); (3, Some (s "x"));
+     (4, Some (s "b.f90")); (5, Some (s "mb")); (6, Some (s "x~2"))].
+Proof. exact clash_project_sorted. Qed.
+Print Assumptions C12_former_clash_witness_repaired.
+
+(* what 80d6c91 repaired: the pipeline that iterates the set as it comes *)
+Definition C12_unsorted_statement : Prop :=
+  forall P pi1 pi2 sigma,
+    is_perm pi1 (length (p_files P)) -> is_perm pi2 (length (p_files P)) ->
+    idents_unsorted P pi1 sigma = idents_unsorted P pi2 sigma.
+Theorem C12_unsorted_refuted : ~ C12_unsorted_statement.
+Proof. exact unsorted_statement_refuted. Qed.
+Print Assumptions C12_unsorted_refuted.
+
+(* Set-ordered phases, partial: their order does not matter when no entity requested there competes
+   with another entity for a NameSelector counter (region: sets_isolatedb) *)
+Theorem C12_set_order_irrelevant : forall P pi sigma1 sigma2,
+  consistentb P = true -> sets_isolatedb P = true ->
+  is_perm pi (length (p_files P)) ->
+  perms_ok (p_sets P) sigma1 -> perms_ok (p_sets P) sigma2 ->
+  idents P pi sigma1 = idents P pi sigma2.
+Proof. exact set_order_irrelevant. Qed.
+Print Assumptions C12_set_order_irrelevant.
+
+(* PARTIAL theorem for the full statement: all orders at once *)
+Theorem C12_partial : forall P pi1 pi2 sigma1 sigma2,
+  consistentb P = true -> sets_isolatedb P = true -> NoDup (map f_path (p_files P)) ->
+  is_perm pi1 (length (p_files P)) -> is_perm pi2 (length (p_files P)) ->
+  perms_ok (p_sets P) sigma1 -> perms_ok (p_sets P) sigma2 ->
+  idents P pi1 sigma1 = idents P pi2 sigma2.
+Proof. exact deterministic_partial. Qed.
+Print Assumptions C12_partial.
+
+(* REFUTATION: two equally named modules in one level of the toposort are numbered in the iteration
+   order of a set of objects hashed by id *)
+Theorem C12_refuted_witness :
+  is_perm [0; 1] (length (p_files modclash_project)) /\
   perms_ok (p_sets modclash_project) [[0; 1]] /\ perms_ok (p_sets modclash_project) [[1; 0]] /\
-  idents_sorted modclash_project [0; 1] [[0; 1]] = [(1, Some (s "m")); (2, Some (s "m~2"))] /\
-  idents_sorted modclash_project [0; 1] [[1; 0]] = [(1, Some (s "m~2")); (2, Some (s "m"))].
-Proof. exact modclash_sorted_differs. Qed.
-Print Assumptions C12_sorted_not_enough.
+  sets_isolatedb modclash_project = false /\ consistentb modclash_project = true /\
+  idents modclash_project [0; 1] [[0; 1]] = [(1, Some (s "m")); (2, Some (s "m~2"))] /\
+  idents modclash_project [0; 1] [[1; 0]] = [(1, Some (s "m~2")); (2, Some (s "m"))].
+Proof. exact modclash_differs. Qed.
+Print Assumptions C12_refuted_witness.
+
+Theorem C12_refuted : ~ C12_statement.
+Proof. exact statement_refuted. Qed.
+Print Assumptions C12_refuted.
+
+(* clash-free projects: any order of anything (the NameSelector-level reason and its corollary) *)
+Theorem C12_noclash_order_irrelevant : forall rs1 rs2,
+  no_clash_list rs1 = true -> (forall r, In r rs1 <-> In r rs2) ->
+  forall id, ident_in (fst (run init rs1)) id = ident_in (fst (run init rs2)) id.
+Proof. exact noclash_order_irrelevant_b. Qed.
+Print Assumptions C12_noclash_order_irrelevant.
+
+Theorem C12_perm_invariant_noclash : forall P pi1 pi2 sigma1 sigma2,
+  no_clashb P = true ->
+  is_perm pi1 (length (p_files P)) -> is_perm pi2 (length (p_files P)) ->
+  perms_ok (p_sets P) sigma1 -> perms_ok (p_sets P) sigma2 ->
+  idents P pi1 sigma1 = idents P pi2 sigma2.
+Proof. exact perm_invariant_noclash. Qed.
+Print Assumptions C12_perm_invariant_noclash.
 
 (* "Uses" lists: self.uses is a set of module objects; the page shows it in iteration order *)
 Definition C12_uses_statement : Prop :=
@@ -85,20 +118,26 @@ Theorem C12_uses_refuted : ~ C12_uses_statement.
 Proof. exact uses_statement_refuted. Qed.
 Print Assumptions C12_uses_refuted.
 
-(* graph nodes are emitted sorted by identifier: the emission order is a function of the set *)
+(* graphs: nodes and (since c3c7c8e) the child edges of InheritedByGraph are emitted as a function
+   of the set *)
 Theorem C12_graph_emission_sorted : forall nodes pi1 pi2,
   is_perm pi1 (length nodes) -> is_perm pi2 (length nodes) ->
   emit_nodes nodes pi1 = emit_nodes nodes pi2.
 Proof. exact graph_emission_sorted. Qed.
 Print Assumptions C12_graph_emission_sorted.
 
-(* ... the edges "child -> parent" of InheritedByGraph are not *)
-Definition C12_child_edges_statement : Prop :=
+Theorem C12_child_edges_sorted : forall parent children pi1 pi2,
+  is_perm pi1 (length children) -> is_perm pi2 (length children) ->
+  emit_child_edges parent children pi1 = emit_child_edges parent children pi2.
+Proof. exact child_edges_sorted. Qed.
+Print Assumptions C12_child_edges_sorted.
+
+Definition C12_child_edges_unsorted_statement : Prop :=
   forall parent children pi1 pi2, is_perm pi1 (length children) -> is_perm pi2 (length children) ->
-    emit_child_edges parent children pi1 = emit_child_edges parent children pi2.
-Theorem C12_child_edges_refuted : ~ C12_child_edges_statement.
-Proof. exact child_edges_statement_refuted. Qed.
-Print Assumptions C12_child_edges_refuted.
+    emit_child_edges_unsorted parent children pi1 = emit_child_edges_unsorted parent children pi2.
+Theorem C12_child_edges_unsorted_refuted : ~ C12_child_edges_unsorted_statement.
+Proof. exact child_edges_unsorted_refuted. Qed.
+Print Assumptions C12_child_edges_unsorted_refuted.
 
 (* what an earlier run left in the output directory does not matter *)
 Theorem C12_stale_output_irrelevant : forall out pages fs1 fs2,
@@ -113,14 +152,16 @@ Theorem C12_merge_refuted :
 Proof. exact merge_refuted. Qed.
 Print Assumptions C12_merge_refuted.
 
-(* non-vacuity of the hypotheses: a clash-free two-file project with a non-trivial toposort set *)
+(* non-vacuity of C12_partial: names compete in the by-file phases, the toposort set is non-trivial,
+   and every hypothesis holds *)
 Theorem C12_nonvacuous :
-  no_clashb noclash_project = true /\
-  is_perm [1; 0] (length (p_files noclash_project)) /\
-  perms_ok (p_sets noclash_project) [[1; 0]] /\
-  NoDup (map f_path (p_files noclash_project)) /\
-  idents noclash_project [1; 0] [[1; 0]] =
-    [(1, Some (s "a.f90")); (4, Some (s "b.f90")); (6, Some (s "y")); (3, Some (s "x"));
+  no_clashb partial_project = false /\
+  consistentb partial_project = true /\ sets_isolatedb partial_project = true /\
+  is_perm [1; 0] (length (p_files partial_project)) /\
+  perms_ok (p_sets partial_project) [[1; 0]] /\
+  NoDup (map f_path (p_files partial_project)) /\
+  idents partial_project [1; 0] [[1; 0]] =
+    [(1, Some (s "a.f90")); (4, Some (s "b.f90")); (6, Some (s "x~2")); (3, Some (s "x"));
      (2, Some (s "ma")); (5, Some (s "mb"))].
-Proof. exact noclash_project_ok. Qed.
+Proof. exact partial_project_ok. Qed.
 Print Assumptions C12_nonvacuous.
